@@ -415,7 +415,7 @@ impl Prop for C05 {
             self.check_line(&format!("10 ?{}", body), false, ctx);
             return;
         }
-        let o = Opts { data: rng.coin(), func: rng.coin(), tron: false, stop: true, max_lines: 20 };
+        let o = Opts { data: rng.coin(), func: rng.coin(), tron: false, stop: true, max_lines: 20, input: rng.coin(), frac: rng.coin() };
         let p = gen::generate(rng, o);
         let canon = gen::render(&p);
         let spelled = gen::render_spelled(&p, rng.next_u64());
